@@ -112,7 +112,8 @@ def match_finding(findings, prop, signature):
 def run_leg(prop, leg, tier, seed, workdir):
     exe = build.build_harness("%s_%s" % (prop.lower(), leg.name), leg.sources, leg.variant, cores=leg.cores)
     out = os.path.join(workdir, "%s.json" % leg.name)
-    cmd = [exe, "--tier", tier, "--seed", str(seed), "--out", out] + list(leg.args[tier])
+    # the engines wind down by themselves at the deadline (exit 0, exhaustive:false, completed bounds reported); the hard timeout behind it only catches a stuck harness
+    cmd = [exe, "--tier", tier, "--seed", str(seed), "--out", out, "--deadline", str(int(leg.timeout[tier] * 0.8))] + list(leg.args[tier])
     env = dict(os.environ); env["VERIF_REPO"] = REPO
     t0 = time.time()
     log = open(os.path.join(workdir, "%s.stderr" % leg.name), "wb")
